@@ -12,6 +12,7 @@ from typing import Any, Dict, List, Literal, Optional, Tuple, Union
 import duckdb
 import pandas as pd
 
+from vtlengine import _verif
 from vtlengine.AST.DAG._models import DatasetSchedule
 from vtlengine.DataTypes import (
     _DUCKDB_TYPE_TO_VTL,
@@ -310,6 +311,7 @@ def load_scheduled_datasets(
         if ds_name not in input_datasets:
             continue
 
+        _verif.event("load", ds_name, statement_num)
         if path_dict and ds_name in path_dict:
             # Load from CSV using DuckDB's native read_csv
             load_datapoints_duckdb(
@@ -365,6 +367,7 @@ def cleanup_scheduled_datasets(
     persistent_datasets = ds_analysis.persistent
 
     for ds_name in ds_analysis.deletion[statement_num]:
+        _verif.event("release", ds_name, statement_num)
         if ds_name in global_inputs:
             # Drop global inputs without saving
             conn.execute(f'DROP TABLE IF EXISTS "{ds_name}"')
@@ -408,6 +411,7 @@ def fetch_result(
     Returns:
         Dataset or Scalar with result data
     """
+    _verif.event("fetch", result_name, None)
     # Apply time period representation before saving/fetching
     apply_time_period_representation(
         conn, result_name, output_datasets, output_scalars, representation
@@ -503,6 +507,7 @@ def execute_queries(
             "natural": "vtl_period_to_natural",
         }.get(time_period_output_format, "vtl_period_to_vtl")
         sql_fragments.append(repr_macro)
+    _verif.event("init_macros")
     initialize_time_types(conn, sql_fragments=sql_fragments)
 
     # Ensure output folder exists if provided
@@ -523,6 +528,7 @@ def execute_queries(
 
         # Execute query and create table
         try:
+            _verif.event("exec", result_name, statement_num)
             conn.execute(f'CREATE TABLE "{result_name}" AS {sql_query}')
         except duckdb.Error as e:
             mapped = _map_query_error(e, sql_query)
@@ -568,6 +574,7 @@ def execute_queries(
     # Save scalars to CSV when output_folder is provided
     if output_folder:
         result_scalars = {k: v for k, v in results.items() if isinstance(v, Scalar)}
+        _verif.event("save_scalars")
         save_scalars_duckdb(result_scalars, output_folder)
 
     return results
